@@ -148,12 +148,12 @@ impl Axecutor {
             .iter()
             .find(|area| {
                 // Start address is in range of memory area
-                area.start <= address && address < area.start + area.length
+                area.start <= address && (address as u128) < area.start as u128 + area.length as u128
             })
             .ok_or_else(|| self.collect_mem_error_hints(address, length, "Read".to_string()))?;
 
         // Make sure it's in range before doing the slice access below
-        if address + length > area.start + area.length {
+        if address as u128 + length as u128 > area.start as u128 + area.length as u128 {
             return Err(self.collect_mem_error_hints(address, length, "Read".to_string()));
         }
 
@@ -227,7 +227,10 @@ impl Axecutor {
             .state
             .memory
             .iter()
-            .find(|area| area.start <= address && address < area.start + area.length)
+            .find(|area| {
+                area.start <= address
+                    && (address as u128) < area.start as u128 + area.length as u128
+            })
             .ok_or_else(|| {
                 self.collect_mem_error_hints(address, 15, "Read executable".to_string())
             })?;
@@ -259,8 +262,8 @@ impl Axecutor {
         // check if start or end address is within any of the memory areas
         for area in &self.state.memory {
             if address >= area.start
-                && address < area.start + area.length
-                && address + length > area.start + area.length
+                && (address as u128) < area.start as u128 + area.length as u128
+                && address as u128 + length as u128 > area.start as u128 + area.length as u128
             {
                 return AxError::from(format!(
                     "Memory {} of length {} at address {:#x} over end of memory area {} (start {:#x}, length {})",
@@ -278,7 +281,9 @@ impl Axecutor {
         }
 
         for area in &self.state.memory {
-            if address + length > area.start && address + length <= area.start + area.length {
+            if address as u128 + length as u128 > area.start as u128
+                && address as u128 + length as u128 <= area.start as u128 + area.length as u128
+            {
                 return AxError::from(format!(
                     "Memory {} of length {} at address {:#x} before start of memory area {} (start {:#x}, length {})",
                     operation.to_lowercase(),
@@ -368,7 +373,10 @@ impl Axecutor {
             .state
             .memory
             .iter_mut()
-            .find(|area| area.start <= address && address < area.start + area.length)
+            .find(|area| {
+                area.start <= address
+                    && (address as u128) < area.start as u128 + area.length as u128
+            })
         {
             Some(area) => area,
             None => {
@@ -381,7 +389,7 @@ impl Axecutor {
         };
 
         // Range check before doing the copy_from_slice below
-        if address + data.len() as u64 > area.start + area.length {
+        if address as u128 + data.len() as u128 > area.start as u128 + area.length as u128 {
             return Err(self.collect_mem_error_hints(
                 address,
                 data.len() as u64,
